@@ -443,7 +443,8 @@ def e2_build():
 
 def run(ctx):
     import logging
-    logging.getLogger("deep").setLevel(logging.CRITICAL + 1)
+    from ..lib.quiet import quiet_logging
+    quiet_logging()
     ctx.rule = ("(a) 0-8 triggers (line / named-method locations over 4 file names incl. a never-executed one, repeats of one "
                 "location, 1-3 actions of kinds log/snapshot/span each) x 4-25 events of all four kinds over 4 paths (two "
                 "with the same basename) x 5 lines x 4 functions through the real handler; (b) the same tracepoints as one "
